@@ -34,7 +34,7 @@ man = {
     "version": 1,
     "setup_cmd": "./setup.sh",
     "hooks": {"guard": "SCIPOPT_SOPLEX_VERIF",
-              "enable": "harnesses are compiled from /repo/src with -DSCIPOPT_SOPLEX_VERIF -fno-access-control (vlib.base_flags); private state is read through -fno-access-control on the harness translation unit only",
+              "enable": "harnesses are compiled from /repo/src with -DSCIPOPT_SOPLEX_VERIF -fno-access-control (vlib.base_flags); private state is read through -fno-access-control on the harness translation unit only; the one source hook (commit a90388f, add-only) makes the floating-point solve driver append its control decisions to a thread-local sink that harness/C01.cpp installs around optimize()",
               "baseline_off_cmd": "./baseline_off.sh",
               "source_commits": hooks.get("source_commits", []),
               "add_only": True},
